@@ -59,6 +59,18 @@ static _Bool c04_lookup_used(const KSI_VerificationContext *info, int kind, cons
 		&& g_c04_lk_pf == C04_TD(info)->publicationsFile;
 }
 
+/* call-site facts of the user-publication policy tables (policy.c): UserProvidedPublicationExistence precedes every other
+ * user-publication rule (the publication has a time and a hash), and UserProvidedPublicationCreationTimeVerification precedes
+ * the extension rules (signing time < publication time, by ITS contract) */
+static _Bool c04_user_pub_complete(const KSI_VerificationContext *info) {
+	return info == NULL || info->userPublication == NULL || (info->userPublication->time != NULL && info->userPublication->imprint != NULL);
+}
+static _Bool c04_created_before_user_pub(const KSI_VerificationContext *info) {
+	if (!C04_ARGS_OK(info) || info->userPublication == NULL || info->userPublication->time == NULL) return 1;
+	const KSI_Integer *t = c04_signing_time(info);
+	return t == NULL || t->value < info->userPublication->time->value;
+}
+
 #define C04_CASE3(evaluable, holds) (!(evaluable) ? SPEC_C04_UNDECIDABLE : ((holds) ? SPEC_C04_HOLDS : SPEC_C04_CONTRADICTS))
 #define C04_CASE2(evaluable, holds) (((evaluable) && (holds)) ? SPEC_C04_HOLDS : SPEC_C04_UNDECIDABLE)
 
@@ -209,6 +221,7 @@ static spec_c04_case c04_case_CalendarAuthenticationRecordSignatureVerification(
 
 #define C04_COMMON_REQUIRES \
 	__CPROVER_requires(result == NULL || (result->resultCode == KSI_VER_RES_NA && result->errorCode == KSI_VER_ERR_GEN_2)) \
+	__CPROVER_requires(c04_wf_times() && c04_wf_hashes()) \
 	__CPROVER_requires(c04_resources_balanced() && g_c04_lk_calls == 0 && g_c04_pki_calls == 0 && !g_c04_pf_verified && g_c04_ser_buf == NULL)
 
 #define C04_VERDICT(rule, CASE) \
@@ -315,11 +328,13 @@ C04_FRAME_RESULT_PUBFILE_AGGRROOT;
 
 int KSI_VerificationRule_UserProvidedPublicationHashMatchesExtendedResponse(KSI_VerificationContext *info, KSI_RuleVerificationResult *result)
 C04_COMMON_REQUIRES
+__CPROVER_requires(c04_user_pub_complete(info))
 C04_VERDICT(UserProvidedPublicationHashMatchesExtendedResponse, c04_case_UserProvidedPublicationHashMatchesExtendedResponse(info))
 C04_FRAME_RESULT;
 
 int KSI_VerificationRule_UserProvidedPublicationTimeMatchesExtendedResponse(KSI_VerificationContext *info, KSI_RuleVerificationResult *result)
 C04_COMMON_REQUIRES
+__CPROVER_requires(c04_user_pub_complete(info) && c04_created_before_user_pub(info))
 C04_VERDICT(UserProvidedPublicationTimeMatchesExtendedResponse, c04_case_UserProvidedPublicationTimeMatchesExtendedResponse(info))
 C04_FRAME_RESULT;
 
